@@ -51,11 +51,13 @@ CHECKS = {
    text="Per instance and formulation the captured exclusion program equals the textbook program (min-error primal/dual, unambiguous primal/dual) for all decision-variable values; "
         "is_antidistinguishable / common_quantum_overlap proved to be isclose(value,0) / value of the all-ones-prior dual program; trine and PBR constructors equal their closed forms. The captured min-error primal and dual are additionally proved to be a Lagrangian pair (T2); the returned operators are checked to attain the returned value (known finding for the dual form)."),
  "C12": dict(engine="sdpcap", category="translation_validation", design_ref="DESIGN.md §3 C12, §2.2",
-   technique="capture of the picos / cvxpy program built by the real code, exact affine extraction, z3 proof of equality with the textbook program for all decision-variable values, numeric replay; symbolic execution for the caller's-list clause",
-   note="instance data concrete (dyadic family in evidence.bounds); picos / cvxpy evaluation trusted for extraction; textbook duality and conic solvers trusted; z3 5.1.0",
+   technique="capture of the picos / cvxpy program built by the real code, exact affine extraction, z3 proof of equality with the textbook program for all decision-variable values, numeric replay; z3 proof of program inclusion between two captured programs (ordering clauses) and of feasibility of explicit LOCC measurement families with symbolic post-processing weights; symbolic execution for the caller's-list clause",
+   note="instance data concrete (dyadic family in evidence.bounds); picos / cvxpy evaluation trusted for extraction; textbook duality and conic solvers trusted; PSD-cone closure lemmas (sum, partial trace, non-negative combinations) instantiated as trusted facts, PSD-ness of concrete generators by exact rational elimination; z3 5.1.0",
    text="Per instance: PPT-distinguishability primal and dual programs equal the textbook programs with the oracle's own partial-transpose map (either party, 2x2 and 2x3); "
         "the symmetric-extension hierarchy program at levels 1 and 2 equals the textbook program (marginal, symmetric-subspace, PT cuts, completeness, objective); "
-        "the caller's list of states holds the same objects after the call."),
+        "the caller's list of states holds the same objects after the call; every feasible point of the captured PPT program is feasible for the captured min-error program with the "
+        "same objective (PPT <= global), every feasible point of the captured level-2 program maps to a feasible point of the captured level-1 program (non-increasing in the level), and "
+        "every classical post-processing of explicit one-way LOCC product measurements is feasible with objective equal to its success probability (value >= explicit LOCC / separable measurements)."),
  "C20": dict(engine="sdpcap", category="translation_validation", design_ref="DESIGN.md §3 C20, §2.2",
    technique="capture of the picos / cvxpy program built by the real code, exact affine extraction (spectral norm as uninterpreted function), z3 proof of equality with the definition's program for all decision-variable values, numeric replay; symbolic execution of the shortcut branches",
    note="instance data concrete (dyadic Choi matrices, family in evidence.bounds); library evaluation trusted for extraction; the SDP characterisations (Watrous; Katariya-Wilde) are taken as the definitions; conic solvers and LAPACK norms trusted; z3 5.1.0",
